@@ -142,8 +142,7 @@ def run(ctx):
             materialize(ws)
             steps = with_closes(ctx, hist.gen_history(ws, ctx.rng, ctx.rng.randint(3, max_steps), parses=lambda t: vh.call(op="parses", text=t)["ok"]), ws)
             run_history(ctx, vh, ws, steps, "edits")
-            if h < 2:
-                ctx.sample({"workspace": ws.spec, "history": [(s["op"], s["rel"]) for s in steps]})
+            ctx.sample({"workspace": ws.spec, "history": [(s["op"], s["rel"]) for s in steps]})
             ctx.count("histories")
             shutil.rmtree(root, ignore_errors=True)
         for h in range(n_cyc):
